@@ -1,36 +1,1277 @@
-use gluon::ThreadExt;
-use gluon::vm::api::{Hole, OpaqueValue};
-use gluon::RootedThread;
-fn new_vm() -> RootedThread {
+//! C06 — scripts cannot crash the host; errors are values and the VM stays usable.
+//!
+//! Parent mode (default): reads the primitive tables of /repo/vm/src/primitives.rs through the same
+//! translator that produces coq/gen/PrimTableGen.v, asks the real type checker for the type of every
+//! exported primitive, builds boundary + random argument tuples per argument type, and evaluates
+//! every `prim args` expression in ISOLATED CHILD PROCESSES (same executable, `child` argument).  A
+//! child prints `B <i>` before and `R <i> <result>` after each call, so a death of the child
+//! (abort / signal) is attributed to the exact call; the parent resumes after the dying call.
+//!
+//! Output files in --out:
+//!   model_in.txt   one line per case for the extracted model (coq/extract/c06/driver.ml)
+//!   impl_out.txt   canonical result of the implementation, same order
+//!   cases.txt      the Gluon source of each case
+//!   detail.txt     per case: error text / panic message (diagnostics, not compared)
+//!   hist_out.txt   results of the history / reclaim / stack-reuse checks (`ok ...` | `FAIL ...`)
+//!   stats.json
+use gluon::vm::api::{Hole, OpaqueValue, ValueRef};
+use gluon::vm::thread::ThreadInternal;
+use gluon::{RootedThread, ThreadExt};
+use gvh::out::{Args, Hist, fnv};
+use gvh::rng::Rng;
+use std::collections::{BTreeMap, HashSet};
+use std::io::Write;
+use std::sync::atomic::{AtomicU64, Ordering};
+
+// ------------------------------------------------------------------------------------------
+// VM helpers
+// ------------------------------------------------------------------------------------------
+
+fn new_vm(prelude: bool) -> RootedThread {
     let vm = gluon::VmBuilder::new().build();
-    vm.get_database_mut().implicit_prelude(false);
+    vm.get_database_mut().implicit_prelude(prelude);
     vm
 }
-fn main() {
-    let vm = new_vm();
-    let t = gvh::tr::primtable::table().ok().unwrap();
-    let mut mods: Vec<String> = t.entries.iter().map(|e| e.module.clone()).collect();
-    mods.dedup();
-    for m in Vec::<String>::new() {
-        match vm.typecheck_str("sig", &format!("import! {}", m), None) {
-            Ok((_, typ)) => {
-                for f in gluon_base::types::row_iter(gluon_base::types::remove_forall(&typ)) {
-                    let mut args = vec![];
-                    for a in gluon_base::types::arg_iter(gluon_base::types::remove_forall(&f.typ)) { args.push(a.to_string()); }
-                    println!("{} {} : {:?}   [{}]", m, f.name, args, f.typ);
+
+fn show_value(v: ValueRef, depth: u32, out: &mut String) {
+    if depth > 6 {
+        out.push('?');
+        return;
+    }
+    match v {
+        ValueRef::Int(i) => out.push_str(&i.to_string()),
+        ValueRef::Byte(b) => out.push_str(&format!("{}b", b)),
+        ValueRef::Float(f) => out.push_str(&format!("f{:016x}", f.to_bits())),
+        ValueRef::String(s) => {
+            out.push('s');
+            for b in s.bytes() {
+                out.push_str(&format!("{:02x}", b));
+            }
+        }
+        ValueRef::Data(d) => {
+            out.push('(');
+            out.push_str(&d.tag().to_string());
+            for i in 0..d.len() {
+                out.push(' ');
+                match d.get(i) {
+                    Some(x) => show_value(x, depth + 1, out),
+                    None => out.push('?'),
                 }
             }
-            Err(e) => println!("{} ERR {}", m, e),
+            out.push(')');
+        }
+        ValueRef::Array(a) => {
+            out.push('[');
+            let mut first = true;
+            for x in a.iter() {
+                if !first {
+                    out.push(' ');
+                }
+                first = false;
+                show_value(x.as_ref(), depth + 1, out);
+            }
+            out.push(']');
+        }
+        ValueRef::Userdata(_) => out.push_str("<userdata>"),
+        ValueRef::Thread(_) => out.push_str("<thread>"),
+        ValueRef::Closure(_) => out.push_str("<fun>"),
+        ValueRef::Internal => out.push_str("<internal>"),
+    }
+}
+
+/// (canonical result line, diagnostic detail)
+fn eval(vm: &RootedThread, src: &str, io: bool) -> (String, String) {
+    let r = std::panic::catch_unwind(std::panic::AssertUnwindSafe(|| {
+        if io {
+            vm.run_io(true);
+        }
+        vm.run_expr::<OpaqueValue<RootedThread, Hole>>("c06", src)
+    }));
+    match r {
+        Err(p) => {
+            let msg = p
+                .downcast_ref::<String>()
+                .cloned()
+                .or_else(|| p.downcast_ref::<&str>().map(|s| s.to_string()))
+                .unwrap_or_default();
+            ("panic".into(), one_line(&msg))
+        }
+        Ok(Ok((v, _))) => {
+            let mut s = String::from("ret ");
+            show_value(v.get_ref(), 0, &mut s);
+            (s, String::new())
+        }
+        Ok(Err(e)) => {
+            let class = match &e {
+                gluon::Error::VM(_) => "err:vm",
+                gluon::Error::Parse(_) => "err:parse",
+                gluon::Error::Typecheck(_) => "err:typecheck",
+                gluon::Error::Macro(_) => "err:macro",
+                gluon::Error::IO(_) => "err:io",
+                gluon::Error::Other(_) => "err:other",
+                gluon::Error::Multiple(_) => "err:multiple",
+            };
+            (class.into(), one_line(&e.to_string()))
         }
     }
-    for src in ["\"\\u{e9}\"", "1 #Int+ 2", "\"\\q\"", "-1", "-9223372036854775808", "m.f -1", "'\\u{e9}'", "'\\x41'", "\"\\u{e9}\"", "\"a\\tb\"", "0 #Int- 1", "'a'", "'é'", "'\\n'", "'\\0'", "'\\u{10FFFF}'", "\"a\\u{e9}b\"", "\"é€😀\"", "255b", "1.5", "-1.5", "()", "[]", "[1,2]", "(import! std.float.prim).nan",
-       "let m = import! std.int.prim in m.shl 1 3", "let m = import! std.array.prim in m.index [1,2] 5", "let m = import! std.int.prim in m.overflowing_add 1 3", "let m = import! std.int.prim in m.checked_rem 1 0", "let m = import! std.int.prim in m.from_str_radix \"12\" 10", "let m = import! std.char.prim in m.is_digit '1' 10", "let m = import! std.prim in m.string_compare \"a\" \"b\"", "9223372036854775807 #Int+ 1", "let m = import! std.prim in m.error \"boom\"", "1 +", "1 #Int+ \"a\"",
-       "let p = import! std.effect.st.string.prim in let b = p.new () in let _ = p.push_str b \"hello\" in p.slice b 1 3"] {
-        let r = std::panic::catch_unwind(std::panic::AssertUnwindSafe(|| vm.run_expr::<OpaqueValue<RootedThread, Hole>>("t", src)));
-        let r = match r { Ok(r) => r, Err(_) => { println!("{} => PANIC", src); continue } };
-        match r {
-            Ok((v, t)) => println!("{} => {:?} : {}", src, v.get_ref(), t),
-            Err(e) => println!("{} => ERR {:?}", src, e.to_string().lines().next()),
+}
+
+fn one_line(s: &str) -> String {
+    let t: String = s.chars().map(|c| if c == '\n' || c == '\r' || c == '\t' { ' ' } else { c }).collect();
+    t.chars().take(240).collect()
+}
+
+// ------------------------------------------------------------------------------------------
+// child: evaluate job lines [start, end) of a job file on one VM, with markers
+// ------------------------------------------------------------------------------------------
+
+static DEADLINE_MS: AtomicU64 = AtomicU64::new(u64::MAX);
+static CURRENT: AtomicU64 = AtomicU64::new(0);
+
+fn start_watchdog() -> std::time::Instant {
+    let t0 = std::time::Instant::now();
+    std::thread::spawn(move || {
+        loop {
+            std::thread::sleep(std::time::Duration::from_millis(100));
+            let now = t0.elapsed().as_millis() as u64;
+            if now > DEADLINE_MS.load(Ordering::SeqCst) {
+                println!("H {}", CURRENT.load(Ordering::SeqCst));
+                let _ = std::io::stdout().flush();
+                std::process::exit(3);
+            }
+        }
+    });
+    t0
+}
+
+fn child_main(rest: &[String]) {
+    // child <jobfile> <start> <end> <prelude 0|1>
+    let jobs: Vec<String> = std::fs::read_to_string(&rest[0]).expect("job file").lines().map(|s| s.to_string()).collect();
+    let start: usize = rest[1].parse().unwrap();
+    let end: usize = rest[2].parse().unwrap();
+    let prelude = rest[3] == "1";
+    let t0 = start_watchdog();
+    let mut vm = new_vm(prelude);
+    let out = std::io::stdout();
+    for i in start..end.min(jobs.len()) {
+        if (i - start) % 1500 == 1499 {
+            vm = new_vm(prelude);
+        }
+        CURRENT.store(i as u64, Ordering::SeqCst);
+        DEADLINE_MS.store(t0.elapsed().as_millis() as u64 + 20_000, Ordering::SeqCst);
+        {
+            let mut o = out.lock();
+            writeln!(o, "B {}", i).unwrap();
+            o.flush().unwrap();
+        }
+        let (r, d) = eval(&vm, &jobs[i], prelude);
+        DEADLINE_MS.store(u64::MAX, Ordering::SeqCst);
+        {
+            let mut o = out.lock();
+            writeln!(o, "R {} {}\t{}", i, r, d).unwrap();
+            o.flush().unwrap();
+        }
+        if r == "panic" {
+            vm = new_vm(prelude);
         }
     }
+}
+
+// ------------------------------------------------------------------------------------------
+// parent side of the isolated runner
+// ------------------------------------------------------------------------------------------
+
+struct Outcome {
+    result: String,
+    detail: String,
+}
+
+fn run_isolated(jobfile: &std::path::Path, n: usize, prelude: bool, workers: usize, mode: &str) -> Vec<Outcome> {
+    let exe = std::env::current_exe().expect("current_exe");
+    let chunk = (n + workers - 1) / workers.max(1);
+    let mut handles = vec![];
+    for w in 0..workers {
+        let lo = w * chunk;
+        let hi = ((w + 1) * chunk).min(n);
+        if lo >= hi {
+            continue;
+        }
+        let exe = exe.clone();
+        let jobfile = jobfile.to_path_buf();
+        let mode = mode.to_string();
+        handles.push(std::thread::spawn(move || {
+            let mut res: Vec<(usize, Outcome)> = vec![];
+            let mut start = lo;
+            let batch = 400;
+            while start < hi {
+                let stop = (start + batch).min(hi);
+                let o = std::process::Command::new(&exe)
+                    .arg(&mode)
+                    .arg(&jobfile)
+                    .arg(start.to_string())
+                    .arg(stop.to_string())
+                    .arg(if prelude { "1" } else { "0" })
+                    .env("RUST_BACKTRACE", "0")
+                    .output()
+                    .expect("spawn child");
+                let stdout = String::from_utf8_lossy(&o.stdout).to_string();
+                let stderr = String::from_utf8_lossy(&o.stderr).to_string();
+                let mut begun: Option<usize> = None;
+                let mut hung = false;
+                let mut next = start;
+                for line in stdout.lines() {
+                    if let Some(x) = line.strip_prefix("B ") {
+                        begun = x.trim().parse().ok();
+                    } else if let Some(x) = line.strip_prefix("R ") {
+                        let (idx, rest) = x.split_once(' ').unwrap_or((x, ""));
+                        let idx: usize = idx.parse().unwrap_or(usize::MAX);
+                        let (r, d) = rest.split_once('\t').unwrap_or((rest, ""));
+                        res.push((idx, Outcome { result: r.to_string(), detail: d.to_string() }));
+                        begun = None;
+                        next = idx + 1;
+                    } else if line.starts_with("H ") {
+                        hung = true;
+                    }
+                }
+                if let Some(i) = begun {
+                    // the child died (or was stopped by its watchdog) inside call i
+                    use std::os::unix::process::ExitStatusExt;
+                    let how = if hung {
+                        "hang".to_string()
+                    } else if let Some(sig) = o.status.signal() {
+                        if sig == 6 { "abort".to_string() } else { format!("signal{}", sig) }
+                    } else {
+                        format!("exit{}", o.status.code().unwrap_or(-1))
+                    };
+                    // the panic message the runtime printed before aborting
+                    let mut msg = String::new();
+                    let lines: Vec<&str> = stderr.lines().collect();
+                    for (k, l) in lines.iter().enumerate() {
+                        if l.contains("panicked at") {
+                            msg = format!("{} {}", l.trim(), lines.get(k + 1).unwrap_or(&"").trim());
+                        }
+                    }
+                    res.push((i, Outcome { result: how, detail: one_line(&msg) }));
+                    next = i + 1;
+                } else if next < stop && !o.status.success() {
+                    // died between calls: attribute to the next call
+                    res.push((next, Outcome { result: "died-between-calls".into(), detail: one_line(&stderr) }));
+                    next += 1;
+                } else if next < stop {
+                    next = stop;
+                }
+                start = next.max(start + if begun.is_some() { 0 } else { 0 });
+                if next <= start && begun.is_none() && o.status.success() {
+                    start = stop;
+                } else {
+                    start = next;
+                }
+            }
+            res
+        }));
+    }
+    let mut all: Vec<Option<Outcome>> = (0..n).map(|_| None).collect();
+    for h in handles {
+        for (i, o) in h.join().expect("worker") {
+            if i < n {
+                all[i] = Some(o);
+            }
+        }
+    }
+    all.into_iter().map(|o| o.unwrap_or(Outcome { result: "missing".into(), detail: String::new() })).collect()
+}
+
+// ------------------------------------------------------------------------------------------
+// arguments
+// ------------------------------------------------------------------------------------------
+
+#[derive(Clone, Debug, PartialEq)]
+enum Ty {
+    Int,
+    Byte,
+    Char,
+    Float,
+    Str,
+    ArrA,
+    ArrByte,
+    Unit,
+    Buf,
+    Any,
+    Other(String),
+}
+
+fn ty_of(s: &str) -> Ty {
+    match s {
+        "Int" => Ty::Int,
+        "Byte" => Ty::Byte,
+        "Char" => Ty::Char,
+        "Float" => Ty::Float,
+        "String" => Ty::Str,
+        "Array a" => Ty::ArrA,
+        "Array Byte" => Ty::ArrByte,
+        "()" => Ty::Unit,
+        "a" => Ty::Any,
+        _ if s.starts_with("std.effect.st.string.StringBuf") => Ty::Buf,
+        _ => Ty::Other(s.to_string()),
+    }
+}
+
+fn ty_name(t: &Ty) -> String {
+    match t {
+        Ty::Int => "Int".into(),
+        Ty::Byte => "Byte".into(),
+        Ty::Char => "Char".into(),
+        Ty::Float => "Float".into(),
+        Ty::Str => "String".into(),
+        Ty::ArrA => "Array".into(),
+        Ty::ArrByte => "ArrayByte".into(),
+        Ty::Unit => "Unit".into(),
+        Ty::Buf => "Buf".into(),
+        Ty::Any => "Any".into(),
+        Ty::Other(s) => format!("?{}", s.replace(' ', "_")),
+    }
+}
+
+#[derive(Clone, Debug)]
+enum Arg {
+    Int(i64),
+    Byte(u8),
+    Char(char),
+    Float(&'static str),
+    Str(String),
+    ArrInt(Vec<i64>),
+    /// array of another representation: (source text, length)
+    ArrOther(&'static str, usize),
+    ArrByte(Vec<u8>),
+    Unit,
+    Buf(String),
+}
+
+fn str_lit(s: &str) -> String {
+    let mut o = String::from("\"");
+    for c in s.chars() {
+        match c {
+            '"' => o.push_str("\\\""),
+            '\\' => o.push_str("\\\\"),
+            '\n' => o.push_str("\\n"),
+            '\t' => o.push_str("\\t"),
+            '\r' => o.push_str("\\r"),
+            c => o.push(c),
+        }
+    }
+    o.push('"');
+    o
+}
+
+impl Arg {
+    fn src(&self) -> String {
+        match self {
+            Arg::Int(i) => {
+                if *i < 0 {
+                    format!("({})", i)
+                } else {
+                    i.to_string()
+                }
+            }
+            Arg::Byte(b) => format!("{}b", b),
+            Arg::Char(c) => match *c {
+                '\n' => "'\\n'".into(),
+                '\t' => "'\\t'".into(),
+                '\r' => "'\\r'".into(),
+                '\'' => "'\\''".into(),
+                '\\' => "'\\\\'".into(),
+                c if c.is_ascii() && !c.is_ascii_control() => format!("'{}'", c),
+                // the lexer cannot read a non-ASCII char literal: take it out of a string literal
+                c => format!("(c06sp.char_at {} 0)", str_lit(&c.to_string())),
+            },
+            Arg::Float(s) => format!("({})", s),
+            Arg::Str(s) => str_lit(s),
+            Arg::ArrInt(v) => format!("[{}]", v.iter().map(|x| if *x < 0 { format!("({})", x) } else { x.to_string() }).collect::<Vec<_>>().join(", ")),
+            Arg::ArrOther(s, _) => s.to_string(),
+            Arg::ArrByte(v) => format!("[{}]", v.iter().map(|x| format!("{}b", x)).collect::<Vec<_>>().join(", ")),
+            Arg::Unit => "()".into(),
+            Arg::Buf(_) => "c06buf".into(),
+        }
+    }
+    fn model(&self) -> String {
+        fn hex(b: &[u8]) -> String {
+            b.iter().map(|x| format!("{:02x}", x)).collect()
+        }
+        match self {
+            Arg::Int(i) => format!("i:{}", i),
+            Arg::Byte(b) => format!("b:{}", b),
+            Arg::Char(c) => format!("c:{}", *c as u32),
+            Arg::Float(_) => "f:0".into(),
+            Arg::Str(s) => format!("s:{}", hex(s.as_bytes())),
+            Arg::ArrInt(v) => format!("a:{}", v.iter().map(|x| x.to_string()).collect::<Vec<_>>().join(",")),
+            Arg::ArrOther(_, n) => format!("a:{}", vec!["0"; *n].join(",")),
+            Arg::ArrByte(v) => format!("y:{}", hex(v)),
+            Arg::Unit => "u".into(),
+            Arg::Buf(s) => format!("B:{}", hex(s.as_bytes())),
+        }
+    }
+    fn exact(&self) -> bool {
+        !matches!(self, Arg::ArrOther(..) | Arg::Float(_))
+    }
+}
+
+const MAX: i64 = i64::MAX;
+const MIN: i64 = i64::MIN;
+
+fn ints_a(thorough: bool) -> Vec<i64> {
+    let mut v = vec![0, 1, -1, 2, 3, 10, 255, (1 << 32) + 1, 3037000499, 3037000500, MAX, MIN, MIN + 1, -2, 1 << 62];
+    if thorough {
+        v.extend([7, 8, 36, 63, 64, 65, 100, 256, -64, -3037000500, MAX - 1, 1 << 31, (1 << 32) - 1, 1 << 32, 1 << 33, -(1 << 62), 55296, 1114111, 1114112]);
+    }
+    v
+}
+fn ints_b(thorough: bool) -> Vec<i64> {
+    let mut v = vec![0, 1, -1, 2, 3, 7, 8, 36, 37, 62, 63, 64, 65, 99, 1 << 32, (1 << 32) + 2, (1 << 32) + 37, MAX, MIN, MIN + 1, -64, 1 << 31];
+    if thorough {
+        v.extend([9, 10, 16, 31, 32, 33, 35, 100, 127, 128, 255, 256, (1 << 32) - 1, (1 << 32) + 36, (1 << 32) + 63, (1 << 32) + 64, MAX - 1, -2, -63, -65, 3037000500]);
+    }
+    v
+}
+fn ints_unary() -> Vec<i64> {
+    vec![0, 1, -1, 2, 7, 10, 36, 37, 63, 64, 65, 99, 127, 128, 255, 256, 55295, 55296, 57343, 57344, 65535, 1114111, 1114112, 1 << 31, (1 << 32) - 1, 1 << 32, (1 << 32) + 65, (1 << 32) + 55296, MAX, MAX - 1, MIN, MIN + 1, -2, -255, -256]
+}
+fn bytes_pool() -> Vec<u8> {
+    vec![0, 1, 2, 3, 7, 8, 9, 15, 16, 36, 37, 127, 128, 200, 254, 255]
+}
+fn chars_pool() -> Vec<char> {
+    vec!['a', 'z', 'A', 'Z', '0', '9', ' ', '\n', '_', 'é', 'ß', '€', '😀', '٣', '\u{10FFFF}', '\u{7f}', '\u{80}', '\u{7ff}', '\u{800}', '\u{ffff}', '\u{10000}']
+}
+fn radix_pool() -> Vec<i64> {
+    vec![0, 1, 2, 8, 10, 16, 35, 36, 37, 99, (1 << 32) + 10, (1 << 32) + 36, (1 << 32) + 37, 1 << 32, MAX, MIN, -1]
+}
+fn floats_pool() -> Vec<&'static str> {
+    vec![
+        "0.0", "1.0", "-1.5", "0.5", "2.5", "1000000.0", "-0.0", "9007199254740993.0", "c06fp.nan", "c06fp.infinity", "c06fp.neg_infinity", "c06fp.max_", "c06fp.min_",
+        "c06fp.min_positive", "c06fp.epsilon",
+    ]
+}
+fn strings_pool() -> Vec<&'static str> {
+    vec!["", "a", "hello", "h\u{e9}llo", "\u{20ac}uro", "a\u{1f600}b", "\u{df}\u{20ac}\u{1f600}", " \tpad \n", "12", "-7f", "zz", "+5", "9223372036854775807", "9223372036854775808", "1.5", "aXbXc", "X", "\u{e9}"]
+}
+fn index_strings() -> Vec<&'static str> {
+    vec!["", "a", "hello", "h\u{e9}llo", "\u{20ac}u", "a\u{1f600}b", "\u{df}\u{20ac}\u{1f600}"]
+}
+fn idx_pool(len: usize) -> Vec<i64> {
+    let mut v: Vec<i64> = (0..=(len as i64 + 1)).collect();
+    v.extend([-1, MAX, MIN, 1 << 32]);
+    v
+}
+fn int_arrays() -> Vec<Vec<i64>> {
+    vec![vec![], vec![7], vec![1, 2, 3], vec![5, -6, 7, MIN, 9, MAX, 11, 12]]
+}
+fn other_arrays() -> Vec<(&'static str, usize)> {
+    vec![("[\"a\", \"bc\"]", 2), ("[1.5, 2.5, 3.5]", 3), ("[1b, 2b]", 2), ("[[1], [2, 3]]", 2), ("[(), ()]", 2), ("[{ x = 1, y = \"s\" }]", 1)]
+}
+fn byte_arrays() -> Vec<Vec<u8>> {
+    vec![vec![], vec![104, 105], vec![195, 169], vec![255], vec![195], vec![226, 130], vec![226, 130, 172], vec![240, 159, 152, 128], vec![237, 160, 128], vec![192, 128], vec![97, 128, 98], vec![244, 144, 128, 128]]
+}
+
+fn rand_int(rng: &mut Rng) -> i64 {
+    match rng.below(8) {
+        0 => rng.range(-3, 70),
+        1 => rng.next_u64() as i64,
+        2 => {
+            let k = rng.below(64);
+            let base = if k == 63 { MIN } else { 1i64 << k };
+            base.wrapping_add(rng.range(-2, 2))
+        }
+        3 => -(rng.range(0, 1 << 40)),
+        4 => (1i64 << 32) + rng.range(0, 70),
+        5 => rng.range(0, 1 << 20),
+        6 => *rng.pick(&[MIN, MAX, MIN + 1, MAX - 1, 0, -1]),
+        _ => rng.range(-100000, 100000),
+    }
+}
+fn rand_char(rng: &mut Rng) -> char {
+    let pool = ['a', 'b', 'z', 'X', '0', '7', ' ', '-', '+', 'é', 'ß', '€', '😀', '٣', 'ñ', '中'];
+    *rng.pick(&pool)
+}
+fn rand_string(rng: &mut Rng) -> String {
+    let n = rng.below(7);
+    (0..n).map(|_| rand_char(rng)).collect()
+}
+
+/// All tuples for a signature.  `family` labels go to the histogram.
+fn tuples(sig: &[Ty], thorough: bool, rng: &mut Rng, cap: usize, nrand: usize) -> Vec<(Vec<Arg>, &'static str)> {
+    let mut out: Vec<(Vec<Arg>, &'static str)> = vec![];
+    let s: Vec<&Ty> = sig.iter().collect();
+    let ints_u: Vec<Arg> = ints_unary().into_iter().map(Arg::Int).collect();
+    let bytes: Vec<Arg> = bytes_pool().into_iter().map(Arg::Byte).collect();
+    let chars: Vec<Arg> = chars_pool().into_iter().map(Arg::Char).collect();
+    let floats: Vec<Arg> = floats_pool().into_iter().map(Arg::Float).collect();
+    let strs: Vec<Arg> = strings_pool().into_iter().map(|x| Arg::Str(x.to_string())).collect();
+    let mut push = |v: Vec<Arg>| out.push((v, "boundary"));
+    match s.as_slice() {
+        [Ty::Int] => ints_u.iter().for_each(|a| push(vec![a.clone()])),
+        [Ty::Byte] => (0..=255u8).for_each(|b| push(vec![Arg::Byte(b)])),
+        [Ty::Char] => chars.iter().for_each(|a| push(vec![a.clone()])),
+        [Ty::Float] => floats.iter().for_each(|a| push(vec![a.clone()])),
+        [Ty::Str] => strs.iter().for_each(|a| push(vec![a.clone()])),
+        [Ty::Unit] => push(vec![Arg::Unit]),
+        [Ty::Any] => {
+            push(vec![Arg::Int(3)]);
+            push(vec![Arg::Unit]);
+            push(vec![Arg::Str("x".into())]);
+            push(vec![Arg::ArrInt(vec![1])]);
+            push(vec![Arg::Float("1.5")]);
+        }
+        [Ty::ArrA] => {
+            int_arrays().into_iter().for_each(|a| push(vec![Arg::ArrInt(a)]));
+            other_arrays().into_iter().for_each(|(s, n)| push(vec![Arg::ArrOther(s, n)]));
+        }
+        [Ty::ArrByte] => byte_arrays().into_iter().for_each(|a| push(vec![Arg::ArrByte(a)])),
+        [Ty::Buf] => index_strings().into_iter().for_each(|x| push(vec![Arg::Buf(x.to_string())])),
+        [Ty::Int, Ty::Int] => {
+            for a in ints_a(thorough) {
+                for b in ints_b(thorough) {
+                    push(vec![Arg::Int(a), Arg::Int(b)]);
+                }
+            }
+        }
+        [Ty::Byte, Ty::Byte] => {
+            for a in &bytes {
+                for b in &bytes {
+                    push(vec![a.clone(), b.clone()]);
+                }
+            }
+        }
+        [Ty::Byte, Ty::Int] => {
+            for a in &bytes {
+                for b in ints_b(thorough) {
+                    push(vec![a.clone(), Arg::Int(b)]);
+                }
+            }
+        }
+        [Ty::Char, Ty::Int] => {
+            for a in &chars {
+                for b in radix_pool() {
+                    push(vec![a.clone(), Arg::Int(b)]);
+                }
+            }
+        }
+        [Ty::Float, Ty::Float] => {
+            for a in &floats {
+                for b in &floats {
+                    push(vec![a.clone(), b.clone()]);
+                }
+            }
+        }
+        [Ty::Float, Ty::Int] => {
+            for a in &floats {
+                for b in [0, 1, -1, 2, 1 << 31, (1 << 31) - 1, 1 << 32, MAX, MIN] {
+                    push(vec![a.clone(), Arg::Int(b)]);
+                }
+            }
+        }
+        [Ty::Float, Ty::Float, Ty::Float] => {
+            for a in &floats {
+                for b in floats.iter().step_by(2) {
+                    for c in floats.iter().step_by(3) {
+                        push(vec![a.clone(), b.clone(), c.clone()]);
+                    }
+                }
+            }
+        }
+        [Ty::Str, Ty::Str] => {
+            for a in &strs {
+                for b in &strs {
+                    push(vec![a.clone(), b.clone()]);
+                }
+            }
+        }
+        [Ty::Str, Ty::Char] => {
+            for a in strs.iter().take(7) {
+                for b in &chars {
+                    push(vec![a.clone(), b.clone()]);
+                }
+            }
+        }
+        [Ty::Str, Ty::Int] => {
+            for a in strings_pool() {
+                let mut ints = idx_pool(a.len());
+                ints.extend(radix_pool());
+                ints.sort();
+                ints.dedup();
+                for b in ints {
+                    push(vec![Arg::Str(a.to_string()), Arg::Int(b)]);
+                }
+            }
+        }
+        [Ty::Str, Ty::Int, Ty::Int] => {
+            for a in index_strings() {
+                for b in idx_pool(a.len()) {
+                    for c in idx_pool(a.len()) {
+                        push(vec![Arg::Str(a.to_string()), Arg::Int(b), Arg::Int(c)]);
+                    }
+                }
+            }
+        }
+        [Ty::Buf, Ty::Int, Ty::Int] => {
+            for a in index_strings() {
+                for b in idx_pool(a.len()) {
+                    for c in idx_pool(a.len()) {
+                        push(vec![Arg::Buf(a.to_string()), Arg::Int(b), Arg::Int(c)]);
+                    }
+                }
+            }
+        }
+        [Ty::Buf, Ty::Str] => {
+            for a in index_strings() {
+                for b in strs.iter().take(6) {
+                    push(vec![Arg::Buf(a.to_string()), b.clone()]);
+                }
+            }
+        }
+        [Ty::ArrA, Ty::Int] => {
+            for a in int_arrays() {
+                for b in idx_pool(a.len()) {
+                    push(vec![Arg::ArrInt(a.clone()), Arg::Int(b)]);
+                }
+            }
+            for (s, n) in other_arrays() {
+                for b in idx_pool(n) {
+                    push(vec![Arg::ArrOther(s, n), Arg::Int(b)]);
+                }
+            }
+        }
+        [Ty::ArrA, Ty::Int, Ty::Int] => {
+            for a in int_arrays() {
+                for b in idx_pool(a.len()) {
+                    for c in idx_pool(a.len()) {
+                        push(vec![Arg::ArrInt(a.clone()), Arg::Int(b), Arg::Int(c)]);
+                    }
+                }
+            }
+            for (s, n) in other_arrays() {
+                for b in idx_pool(n) {
+                    for c in idx_pool(n) {
+                        push(vec![Arg::ArrOther(s, n), Arg::Int(b), Arg::Int(c)]);
+                    }
+                }
+            }
+        }
+        [Ty::ArrA, Ty::ArrA] => {
+            for a in int_arrays() {
+                for b in int_arrays() {
+                    push(vec![Arg::ArrInt(a.clone()), Arg::ArrInt(b)]);
+                }
+            }
+            for (s, n) in other_arrays() {
+                push(vec![Arg::ArrOther(s, n), Arg::ArrOther(s, n)]);
+                push(vec![Arg::ArrOther(s, n), Arg::ArrInt(vec![])]);
+                push(vec![Arg::ArrInt(vec![]), Arg::ArrOther(s, n)]);
+            }
+        }
+        _ => {}
+    }
+    drop(push);
+    // cap the boundary family by a seeded sample (keeps the run inside the tier's budget)
+    if out.len() > cap {
+        let mut keep: Vec<(Vec<Arg>, &'static str)> = vec![];
+        let n = out.len();
+        let mut idx: Vec<usize> = (0..n).collect();
+        for i in 0..cap {
+            let j = i + rng.below((n - i) as u64) as usize;
+            idx.swap(i, j);
+        }
+        let mut chosen: Vec<usize> = idx[..cap].to_vec();
+        chosen.sort();
+        for i in chosen {
+            keep.push(out[i].clone());
+        }
+        out = keep;
+    }
+    // random tuples from the seed
+    for _ in 0..nrand {
+        let mut v = vec![];
+        let mut last_len: Option<usize> = None;
+        let mut ok = true;
+        for t in sig {
+            let a = match t {
+                Ty::Int => match last_len {
+                    Some(l) if rng.chance(3, 4) => Arg::Int(rng.range(-1, l as i64 + 2)),
+                    _ => Arg::Int(rand_int(rng)),
+                },
+                Ty::Byte => Arg::Byte(rng.below(256) as u8),
+                Ty::Char => Arg::Char(rand_char(rng)),
+                Ty::Float => Arg::Float(*rng.pick(&floats_pool())),
+                Ty::Str => {
+                    let s = rand_string(rng);
+                    last_len = Some(s.len());
+                    Arg::Str(s)
+                }
+                Ty::Buf => {
+                    let s = rand_string(rng);
+                    last_len = Some(s.len());
+                    Arg::Buf(s)
+                }
+                Ty::ArrA => {
+                    let n = rng.below(6) as usize;
+                    last_len = Some(n);
+                    Arg::ArrInt((0..n).map(|_| rand_int(rng)).collect())
+                }
+                Ty::ArrByte => {
+                    let n = rng.below(6) as usize;
+                    if rng.chance(1, 2) {
+                        Arg::ArrByte(rand_string(rng).into_bytes())
+                    } else {
+                        Arg::ArrByte((0..n).map(|_| rng.below(256) as u8).collect())
+                    }
+                }
+                Ty::Unit => Arg::Unit,
+                Ty::Any => Arg::Int(rand_int(rng)),
+                Ty::Other(_) => {
+                    ok = false;
+                    Arg::Unit
+                }
+            };
+            v.push(a);
+        }
+        if ok && !sig.is_empty() {
+            out.push((v, "random"));
+        }
+    }
+    out
+}
+
+// ------------------------------------------------------------------------------------------
+// cases
+// ------------------------------------------------------------------------------------------
+
+struct Case {
+    module: String,
+    name: String,
+    src: String,
+    model: String,
+    family: &'static str,
+}
+
+const PRELUDE_OFF_PREFIX: &str = "let c06sp = import! std.string.prim in let c06fp = import! std.float.prim in ";
+
+fn case_src(module: &str, name: &str, args: &[Arg]) -> String {
+    let mut s = String::from(PRELUDE_OFF_PREFIX);
+    s.push_str(&format!("let c06m = import! {} in ", module));
+    if let Some(Arg::Buf(content)) = args.iter().find(|a| matches!(a, Arg::Buf(_))) {
+        s.push_str(&format!("let c06buf = c06m.new () in let _ = c06m.push_str c06buf {} in ", str_lit(content)));
+    }
+    s.push_str(&format!("c06m.{}", name));
+    for a in args {
+        s.push(' ');
+        s.push_str(&a.src());
+    }
+    s
+}
+
+/// Modules whose primitives have a clause in Lib/Prims.v (compared with the model); the others are
+/// monitored only (no abort / hang / panic).
+fn modelled(module: &str) -> bool {
+    matches!(module, "std.int.prim" | "std.byte.prim" | "std.char.prim" | "std.string.prim" | "std.array.prim" | "std.float.prim" | "std.prim" | "std.effect.st.string.prim")
+}
+
+fn signatures(table: &gvh::tr::primtable::Table) -> BTreeMap<(String, String), Vec<String>> {
+    let mut out = BTreeMap::new();
+    let mut mods: Vec<String> = table.entries.iter().map(|e| e.module.clone()).collect();
+    mods.sort();
+    mods.dedup();
+    for m in mods {
+        // std.path.prim / std.fs.prim need the prelude (std.path.types derives Show/Eq)
+        for prelude in [false, true] {
+            let vm = new_vm(prelude);
+            let r = std::panic::catch_unwind(std::panic::AssertUnwindSafe(|| vm.typecheck_str("c06sig", &format!("import! {}", m), None)));
+            if let Ok(Ok((_, typ))) = r {
+                for f in gluon_base::types::row_iter(gluon_base::types::remove_forall(&typ)) {
+                    let args: Vec<String> = gluon_base::types::arg_iter(gluon_base::types::remove_forall(&f.typ)).map(|a| a.to_string()).collect();
+                    out.insert((m.clone(), f.name.declared_name().to_string()), args);
+                }
+                break;
+            }
+        }
+    }
+    out
+}
+
+// ------------------------------------------------------------------------------------------
+// histories (one VM, failing and succeeding evaluations interleaved)
+// ------------------------------------------------------------------------------------------
+
+/// (source, expected to succeed)
+fn program_pool() -> Vec<(&'static str, bool)> {
+    vec![
+        // succeeding
+        ("1 #Int+ 2", true),
+        ("let f x = x #Int* 2 in f 21", true),
+        ("let rec sum n acc = if n #Int== 0 then acc else sum (n #Int- 1) (acc #Int+ n) in sum 1000 0", true),
+        ("let rec fib n = if n #Int< 2 then n else fib (n #Int- 1) #Int+ fib (n #Int- 2) in fib 15", true),
+        ("{ a = 1, b = \"two\", c = [1, 2, 3] }", true),
+        ("let m = import! std.int.prim in m.wrapping_add 9223372036854775807 1", true),
+        ("let s = import! std.string.prim in s.slice \"h\u{e9}llo\" 1 3", true),
+        ("let s = import! std.string.prim in s.append \"abc\" \"def\"", true),
+        ("let a = import! std.array.prim in a.append [1, 2] [3]", true),
+        ("let a = import! std.array.prim in a.index (a.slice [1, 2, 3, 4] 1 3) 1", true),
+        ("let r = { f = \\x -> x #Int+ 1 } in r.f 41", true),
+        ("type T = | A Int | B in match A 3 with | A x -> x | B -> 0", true),
+        ("let rec build n acc = if n #Int== 0 then acc else build (n #Int- 1) ((import! std.string.prim).append acc \"x\") in (import! std.string.prim).len (build 200 \"\")", true),
+        ("let c = import! std.char.prim in c.to_digit 'f' 16", true),
+        ("1.5 #Float* 2.0", true),
+        // failing: compile time
+        ("1 +", false),
+        ("let x = in 1", false),
+        ("\"unterminated", false),
+        ("1 #Int+ \"a\"", false),
+        ("undefined_variable_c06", false),
+        ("let f x = x in f 1 2", false),
+        ("import! std.does.not.exist", false),
+        ("{ a = 1 }.b", false),
+        // failing: run time
+        ("9223372036854775807 #Int+ 1", false),
+        ("1 #Int/ 0", false),
+        ("(0 #Int- 9223372036854775807 #Int- 1) #Int/ (0 #Int- 1)", false),
+        ("(import! std.prim).error \"boom\"", false),
+        ("let a = import! std.array.prim in a.index [1, 2] 5", false),
+        ("let a = import! std.array.prim in a.slice [1, 2] 2 1", false),
+        ("let s = import! std.string.prim in s.slice \"\u{e9}\" 0 1", false),
+        ("let s = import! std.string.prim in s.char_at \"abc\" 3", false),
+        ("let s = import! std.string.prim in s.split_at \"abc\" 9", false),
+        ("let m = import! std.int.prim in m.rem 1 0", false),
+        ("let rec f x = if x #Int== 0 then (import! std.prim).error \"deep\" else 1 #Int+ f (x #Int- 1) in f 300", false),
+        ("let g y = [y, (import! std.array.prim).index [] 0, y] in let r = { h = g } in r.h 1", false),
+        ("let rec f x = 1 #Int+ f (x #Int+ 1) in f 0", false),
+        ("let a = import! std.array.prim in let rec f x = if x #Int== 0 then a.index [1] 7 else f (x #Int- 1) #Int+ 1 in f 50", false),
+    ]
+}
+
+const PROBE: &str = "let rec sum n = if n #Int== 0 then 0 else n #Int+ sum (n #Int- 1) in { s = sum 100, t = (import! std.string.prim).append \"ok\" \"!\", u = [1, 2, 3] }";
+
+fn set_stack_limit(vm: &RootedThread, limit: u32) {
+    vm.context().set_max_stack_size(limit);
+}
+fn frames(vm: &RootedThread) -> usize {
+    vm.context().stacktrace(0).frames.len()
+}
+
+fn warm_up(vm: &RootedThread) {
+    for (p, _) in program_pool() {
+        if p.contains("f (x #Int+ 1) in f 0") {
+            continue;
+        }
+        let _ = eval(vm, p, false);
+    }
+    let _ = eval(vm, PROBE, false);
+    vm.collect();
+}
+
+/// hist child: `hist <file> <start> <end> <prelude>`; each line of the file is a space separated
+/// list of program indices (or `S <n>` for the stack-reuse check).
+fn hist_main(rest: &[String]) {
+    let lines: Vec<String> = std::fs::read_to_string(&rest[0]).expect("hist file").lines().map(|s| s.to_string()).collect();
+    let start: usize = rest[1].parse().unwrap();
+    let end: usize = rest[2].parse().unwrap();
+    let t0 = start_watchdog();
+    let pool = program_pool();
+    // result of each program on a FRESH VM (computed once per program, each on its own new VM)
+    let mut fresh: BTreeMap<usize, String> = BTreeMap::new();
+    let mut fresh_of = |i: usize| -> String {
+        if let Some(r) = fresh.get(&i) {
+            return r.clone();
+        }
+        let vm = new_vm(false);
+        set_stack_limit(&vm, STACK_LIMIT);
+        let r = eval(&vm, pool[i].0, false).0;
+        fresh.insert(i, r.clone());
+        r
+    };
+    let probe_expected = {
+        let vm = new_vm(false);
+        eval(&vm, PROBE, false).0
+    };
+    let out = std::io::stdout();
+    for li in start..end.min(lines.len()) {
+        CURRENT.store(li as u64, Ordering::SeqCst);
+        DEADLINE_MS.store(t0.elapsed().as_millis() as u64 + 120_000, Ordering::SeqCst);
+        {
+            let mut o = out.lock();
+            writeln!(o, "B {}", li).unwrap();
+            o.flush().unwrap();
+        }
+        let line = &lines[li];
+        let mut verdict = String::from("ok");
+        let vm = new_vm(false);
+        set_stack_limit(&vm, STACK_LIMIT);
+        warm_up(&vm);
+        let base_mem = vm.allocated_memory();
+        let base_frames = frames(&vm);
+        let toks: Vec<&str> = line.split_whitespace().collect();
+        if toks.first() == Some(&"S") {
+            // stack reuse: n failing evaluations that die deep in the stack, then a probe that needs
+            // most of the (small) stack limit.  Left-over frames or values would add up to an overflow.
+            let n: usize = toks[1].parse().unwrap();
+            let deep = "let rec f x = if x #Int== 0 then (import! std.prim).error \"deep\" else 1 #Int+ f (x #Int- 1) in f 150";
+            let mut fails = 0;
+            for k in 0..n {
+                let (r, _) = eval(&vm, if k % 2 == 0 { deep } else { "let a = import! std.array.prim in let rec f x = if x #Int== 0 then a.index [1] 7 else f (x #Int- 1) #Int+ 1 in f 150" }, false);
+                if r.starts_with("err:vm") {
+                    fails += 1;
+                }
+            }
+            if fails != n {
+                verdict = format!("FAIL stack-reuse: only {} of {} deep evaluations failed with a VM error", fails, n);
+            }
+            let big = "let rec sum n = if n #Int== 0 then 0 else n #Int+ sum (n #Int- 1) in sum 400";
+            let expect = fresh_big(big);
+            let (r, d) = eval(&vm, big, false);
+            if r != expect {
+                verdict = format!("FAIL stack-reuse: after {} failing evaluations a {}-frame program gives `{}` ({}) but `{}` on a fresh VM", n, 400, r, d, expect);
+            }
+        } else {
+            for (pos, t) in toks.iter().enumerate() {
+                let i: usize = t.parse().unwrap();
+                let (r, d) = eval(&vm, pool[i].0, false);
+                let f = fresh_of(i);
+                if r != f {
+                    verdict = format!("FAIL history step {} program {}: `{}` ({}) on the used VM but `{}` on a fresh VM", pos, i, r, d, f);
+                    break;
+                }
+                if r == "panic" {
+                    verdict = format!("FAIL history step {} program {}: host panic ({})", pos, i, d);
+                    break;
+                }
+                if frames(&vm) != base_frames {
+                    verdict = format!("FAIL history step {} program {}: {} frames left on the stack (baseline {})", pos, i, frames(&vm), base_frames);
+                    break;
+                }
+            }
+        }
+        if verdict == "ok" {
+            let (r, d) = eval(&vm, PROBE, false);
+            if r != probe_expected {
+                verdict = format!("FAIL probe after history: `{}` ({}) expected `{}`", r, d, probe_expected);
+            }
+        }
+        if verdict == "ok" {
+            vm.collect();
+            let m = vm.allocated_memory();
+            if m > base_mem {
+                // one more round: the first collect may have been followed by allocations of the probe
+                vm.collect();
+            }
+            let m = vm.allocated_memory();
+            if m != base_mem {
+                verdict = format!("FAIL reclaim: allocated_memory after collect = {} but the post-warm-up baseline is {}", m, base_mem);
+            }
+            if frames(&vm) != base_frames {
+                verdict = format!("FAIL frames: {} frames after the history, baseline {}", frames(&vm), base_frames);
+            }
+        }
+        DEADLINE_MS.store(u64::MAX, Ordering::SeqCst);
+        let mut o = out.lock();
+        writeln!(o, "R {} {}\t", li, verdict).unwrap();
+        o.flush().unwrap();
+    }
+}
+
+const STACK_LIMIT: u32 = 4000;
+
+fn fresh_big(src: &str) -> String {
+    let vm = new_vm(false);
+    set_stack_limit(&vm, STACK_LIMIT);
+    eval(&vm, src, false).0
+}
+
+// ------------------------------------------------------------------------------------------
+// OS-touching modules: monitored only
+// ------------------------------------------------------------------------------------------
+
+fn os_programs(tmp: &str) -> Vec<(String, String)> {
+    // (label, source) evaluated with the implicit prelude and run_io on; read-only or inside `tmp`
+    let mut v: Vec<(String, String)> = vec![];
+    let paths = ["", ".", "/", "a/b.txt", "/nonexistent/c06", "a//b/../c", "\u{e9}\u{20ac}", "..", "a.b.c", "/verif/.cache"];
+    for f in ["is_absolute", "is_relative", "has_root", "parent", "ancestors", "file_name", "file_stem", "extension", "components", "exists", "is_file", "is_dir", "metadata", "symlink_metadata", "canonicalize", "read_link", "read_dir"] {
+        for p in paths.iter() {
+            v.push((format!("std.path.prim.{}", f), format!("let p = import! std.path.prim in p.{} {}", f, str_lit(p))));
+        }
+    }
+    for f in ["strip_prefix", "starts_with", "ends_with", "join", "with_file_name", "with_extension"] {
+        for p in paths.iter().take(7) {
+            for q in paths.iter().take(7) {
+                v.push((format!("std.path.prim.{}", f), format!("let p = import! std.path.prim in p.{} {} {}", f, str_lit(p), str_lit(q))));
+            }
+        }
+    }
+    for p in ["", "/nonexistent/c06", tmp, "/verif/.cache"] {
+        v.push(("std.fs.prim.read_dir".into(), format!("let f = import! std.fs.prim in f.read_dir {}", str_lit(p))));
+        v.push(("std.fs.read_dir".into(), format!("let f = import! std.fs in f.read_dir {}", str_lit(p))));
+    }
+    let file = format!("{}/c06-file.txt", tmp);
+    for (label, src) in [
+        ("std.io.read_file_to_string", format!("let io = import! std.io in io.read_file_to_string {}", str_lit("/nonexistent/c06"))),
+        ("std.io.read_file_to_string", format!("let io = import! std.io in io.read_file_to_string {}", str_lit(&file))),
+        ("std.io.read_file_to_array", format!("let io = import! std.io in io.read_file_to_array {}", str_lit(&file))),
+        ("std.io.read_file_to_string", format!("let io = import! std.io in io.read_file_to_string {}", str_lit(tmp))),
+        ("std.io.read_file_to_string", "let io = import! std.io in io.read_file_to_string \"\"".to_string()),
+        ("std.io.open_file", format!("let io = import! std.io in io.open_file {}", str_lit("/nonexistent/c06"))),
+        ("std.io.read_file", format!("let io = import! std.io in do f = io.open_file {} in io.read_file f 0", str_lit(&file))),
+        ("std.io.read_file", format!("let io = import! std.io in do f = io.open_file {} in io.read_file f 5", str_lit(&file))),
+        ("std.io.read_file", format!("let io = import! std.io in do f = io.open_file {} in io.read_file f 1000000", str_lit(&file))),
+        ("std.io.read_file", format!("let io = import! std.io in do f = io.open_file {} in io.read_file f (-1)", str_lit(&file))),
+        ("std.io.run_expr", "let io = import! std.io in io.run_expr \"1 #Int+\"".to_string()),
+        ("std.io.run_expr", "let io = import! std.io in io.run_expr \"1 #Int+ 2\"".to_string()),
+        ("std.io.load_script", "let io = import! std.io in io.load_script \"c06x\" \"1 +\"".to_string()),
+        ("std.io.catch", "let io = import! std.io in io.catch (io.throw \"x\") (\\e -> io.println e)".to_string()),
+        ("std.io.throw", "let io = import! std.io in io.throw \"thrown\"".to_string()),
+        ("std.env.get_var", "let e = import! std.env in e.get_var \"C06_DOES_NOT_EXIST\"".to_string()),
+        ("std.env.get_var", "let e = import! std.env in e.get_var \"\"".to_string()),
+        ("std.env.get_var", "let e = import! std.env in e.get_var \"A=B\"".to_string()),
+        ("std.random.next_int", "let r = import! std.random in r.thread_rng.next_int".to_string()),
+        ("std.random.gen_int_range", "let r = import! std.random in r.thread_rng.gen_int_range 1 10".to_string()),
+        ("std.random.gen_int_range", "let r = import! std.random in r.thread_rng.gen_int_range 10 1".to_string()),
+        ("std.random.gen_int_range", "let r = import! std.random in r.thread_rng.gen_int_range 5 5".to_string()),
+        ("std.random.gen_int_range", "let r = import! std.random in r.thread_rng.gen_int_range (-9223372036854775808) 9223372036854775807".to_string()),
+        ("std.random.xor_shift_new", "let r = import! std.random.prim in r.xor_shift_new [1b, 2b]".to_string()),
+        ("std.random.xor_shift_new", "let r = import! std.random.prim in r.xor_shift_new []".to_string()),
+        ("std.random.xor_shift_new", "let r = import! std.random.prim in r.xor_shift_new [1b, 2b, 3b, 4b, 5b, 6b, 7b, 8b, 9b, 10b, 11b, 12b, 13b, 14b, 15b, 16b]".to_string()),
+        ("std.regex.new", "let r = import! std.regex in r.new \"(\"".to_string()),
+        ("std.regex.new", "let r = import! std.regex in r.new \"a{1000000000}\"".to_string()),
+        ("std.regex.is_match", "let r = import! std.regex in match r.new \"a+\" with | Ok re -> r.is_match re \"caab\" | Err _ -> False".to_string()),
+        ("std.regex.captures", "let r = import! std.regex in match r.new \"(a)|(b)\" with | Ok re -> r.captures re \"b\" | Err _ -> None".to_string()),
+        ("std.regex.find", "let r = import! std.regex in match r.new \"\" with | Ok re -> r.find re \"\u{e9}\" | Err _ -> None".to_string()),
+        ("std.json.de", "let de = import! std.json.de in de.deserialize de.value \"{\"".to_string()),
+        ("std.json.de", "let de = import! std.json.de in de.deserialize de.value \"[1, 2.5, \\\"x\\\", null, {\\\"a\\\": []}]\"".to_string()),
+        ("std.json.de", "let de = import! std.json.de in de.deserialize de.value \"[[[[[[[[[[[[[[[[[[[[[[[[[[[[[[[[[[[[[[[[[[[[[[[[[[[[[[[[[[[[[[[[[[[[[[[[[[[[[[[[[[[[[[[[[[[[[[[[[[[[[[[[[[[[[[[[[[[[[[[[[[[[[[[[[[[[[[[[[[[[[[[[[[[[[[[[\"".to_string()),
+        ("std.debug.show", "let d = import! std.debug in d.show { a = [1, 2], b = \"x\", c = \\x -> x }".to_string()),
+        ("std.reference", "let r = import! std.reference in do x = r.ref 1 in do _ = r.(<-) x 2 in r.load x".to_string()),
+        ("std.lazy", "let l = import! std.lazy in l.force (l.lazy (\\_ -> (import! std.prim).error \"lazy boom\"))".to_string()),
+        ("std.lazy", "let l = import! std.lazy in let rec x = l.lazy (\\_ -> l.force x) in l.force x".to_string()),
+        ("std.channel", "let c = import! std.channel in do { sender, receiver } = c.channel (c.sender) in c.recv receiver".to_string()),
+        ("std.thread", "let t = import! std.thread in t.yield ()".to_string()),
+        ("std.thread", "let t = import! std.thread in do th = t.new_thread () in t.resume th".to_string()),
+    ] {
+        v.push((label.to_string(), src));
+    }
+    v
+}
+
+// ------------------------------------------------------------------------------------------
+// main
+// ------------------------------------------------------------------------------------------
+
+fn key_module(m: &str) -> String {
+    m.strip_suffix(".prim").unwrap_or(m).to_string()
+}
+
+fn main() {
+    let raw: Vec<String> = std::env::args().skip(1).collect();
+    if raw.first().map(|s| s.as_str()) == Some("child") {
+        return child_main(&raw[1..]);
+    }
+    if raw.first().map(|s| s.as_str()) == Some("hist") {
+        return hist_main(&raw[1..]);
+    }
+    let args = Args::parse();
+    if let Some(path) = &args.replay {
+        return replay(path);
+    }
+    let thorough = args.thorough();
+    let workers: usize = args.extra.get("workers").and_then(|s| s.parse().ok()).unwrap_or(12);
+    let mut rng = Rng::new(args.seed);
+    let mut hist = Hist::default();
+
+    let table = match gvh::tr::primtable::table() {
+        Ok(t) => t,
+        Err(e) => {
+            eprintln!("translator failed: {}", e.msg);
+            std::process::exit(2);
+        }
+    };
+    let sigs = signatures(&table);
+
+    // ---- cases ----
+    let mut cases: Vec<Case> = vec![];
+    let mut sig_lines: Vec<(String, String)> = vec![]; // (model line, impl line)
+    let mut uncovered: Vec<String> = vec![];
+    let cap = if thorough { 4000 } else { 340 };
+    let nrand = if thorough { 400 } else { 40 };
+    let mut seen = HashSet::new();
+    for e in &table.entries {
+        let sig = match sigs.get(&(e.module.clone(), e.name.clone())) {
+            Some(s) => s.clone(),
+            None => {
+                // nested records (std.fs.prim dir_entry.*) need a DirEntry/Metadata value: not driven
+                uncovered.push(format!("{}.{} (no first-order signature)", e.module, e.name));
+                continue;
+            }
+        };
+        let tys: Vec<Ty> = sig.iter().map(|s| ty_of(s)).collect();
+        if modelled(&e.module) {
+            sig_lines.push((format!("sig {} {}", e.module, e.name), format!("sig {}", tys.iter().map(ty_name).collect::<Vec<_>>().join(","))));
+        }
+        if e.module == "std.path.prim" || e.module == "std.fs.prim" {
+            continue; // monitored in the OS family below (prelude on)
+        }
+        let mut r = rng.fork();
+        let ts = tuples(&tys, thorough, &mut r, cap, nrand);
+        if ts.is_empty() {
+            uncovered.push(format!("{}.{} (no generator for signature {:?})", e.module, e.name, sig));
+            continue;
+        }
+        for (t, family) in ts {
+            let src = case_src(&e.module, &e.name, &t);
+            if !seen.insert(fnv(src.as_bytes())) {
+                continue;
+            }
+            let exact = t.iter().all(|a| a.exact()) && e.module != "std.float.prim";
+            let model = format!("{} {} {}{}", if exact { "val" } else { "cls" }, e.module, e.name, t.iter().map(|a| format!(" {}", a.model())).collect::<String>());
+            hist.add(&format!("module:{}", e.module));
+            hist.add(&format!("family:{}", family));
+            cases.push(Case { module: e.module.clone(), name: e.name.clone(), src, model, family });
+        }
+    }
+    // the same primitives reached through the user-facing modules (std.int re-exports std.int.prim)
+    // -- a sample, with the implicit prelude, as a user program would call them
+    let user_facing: Vec<(String, String)> = vec![
+        ("std.int.from_str_radix".into(), "let int = import! std.int in int.from_str_radix \"1\" 99".into()),
+        ("std.int.from_str_radix".into(), "let int = import! std.int in int.from_str_radix \"z\" 36".into()),
+        ("std.int.shl".into(), "let int = import! std.int in int.shl 1 100".into()),
+        ("std.int.shl".into(), "let int = import! std.int in int.shl 1 3".into()),
+        ("std.string.slice".into(), "let string = import! std.string in string.slice \"hello\" 3 1".into()),
+        ("std.string.slice".into(), "let string = import! std.string in string.slice \"hello\" 1 3".into()),
+        ("std.char.to_digit".into(), "let char = import! std.char in char.to_digit 'a' 37".into()),
+        ("std.byte.shl".into(), "let byte = import! std.byte in byte.shl 1b 9b".into()),
+        ("std.array.index".into(), "let array = import! std.array in array.index [1, 2] 2".into()),
+    ];
+
+    // ---- run the primitive sweep ----
+    let jobfile = args.out.join("jobs.txt");
+    {
+        let mut f = std::io::BufWriter::new(std::fs::File::create(&jobfile).unwrap());
+        for c in &cases {
+            writeln!(f, "{}", c.src.replace('\n', " ")).unwrap();
+        }
+    }
+    let outcomes = run_isolated(&jobfile, cases.len(), false, workers, "child");
+
+    // ---- OS family + user-facing sample (prelude on, run_io on) ----
+    let tmp = "/verif/.cache/c06-tmp";
+    std::fs::create_dir_all(tmp).ok();
+    std::fs::write(format!("{}/c06-file.txt", tmp), "hello c06\n").ok();
+    let mut os = os_programs(tmp);
+    os.extend(user_facing);
+    let osfile = args.out.join("jobs_os.txt");
+    {
+        let mut f = std::io::BufWriter::new(std::fs::File::create(&osfile).unwrap());
+        for (_, s) in &os {
+            writeln!(f, "{}", s.replace('\n', " ")).unwrap();
+        }
+    }
+    let os_out = run_isolated(&osfile, os.len(), true, workers, "child");
+
+    // ---- histories ----
+    let pool = program_pool();
+    let nhist = if thorough { 600 } else { 96 };
+    let ok_idx: Vec<usize> = (0..pool.len()).filter(|i| pool[*i].1).collect();
+    let bad_idx: Vec<usize> = (0..pool.len()).filter(|i| !pool[*i].1).collect();
+    let mut hlines: Vec<String> = vec![];
+    // every failing program once, surrounded by successes
+    for b in &bad_idx {
+        hlines.push(format!("{} {} {} {} {}", ok_idx[b % ok_idx.len()], b, ok_idx[(b + 3) % ok_idx.len()], b, ok_idx[(b + 5) % ok_idx.len()]));
+    }
+    for _ in 0..nhist {
+        let len = 1 + rng.below(12) as usize;
+        let mut v = vec![];
+        for _ in 0..len {
+            let i = if rng.chance(1, 2) { *rng.pick(&bad_idx) } else { *rng.pick(&ok_idx) };
+            v.push(i.to_string());
+        }
+        hlines.push(v.join(" "));
+    }
+    hlines.push("S 1000".into());
+    if thorough {
+        hlines.push("S 3000".into());
+    }
+    let histfile = args.out.join("jobs_hist.txt");
+    std::fs::write(&histfile, hlines.join("\n") + "\n").unwrap();
+    let hist_out = run_isolated(&histfile, hlines.len(), false, workers, "hist");
+
+    // ---- write outputs ----
+    let mut model_in = args.file("model_in.txt");
+    let mut impl_out = args.file("impl_out.txt");
+    let mut cases_f = args.file("cases.txt");
+    let mut detail_f = args.file("detail.txt");
+    for (m, i) in &sig_lines {
+        writeln!(model_in, "{}", m).unwrap();
+        writeln!(impl_out, "{}", i).unwrap();
+        writeln!(cases_f, "{}", m).unwrap();
+        writeln!(detail_f, "").unwrap();
+    }
+    let mut distinct = HashSet::new();
+    let mut aborting: BTreeMap<String, u64> = BTreeMap::new();
+    for (c, o) in cases.iter().zip(outcomes.iter()) {
+        let monitored_only = !modelled(&c.module);
+        // monitored-only modules: the model has no clause; only the class "did not take the host down" is recorded
+        let line = if monitored_only { format!("mon {}", c.model) } else { c.model.clone() };
+        writeln!(model_in, "{}", line).unwrap();
+        writeln!(impl_out, "{}", o.result).unwrap();
+        writeln!(cases_f, "{}.{}\t{}", key_module(&c.module), c.name, c.src).unwrap();
+        writeln!(detail_f, "{}", o.detail).unwrap();
+        let class = o.result.split(' ').next().unwrap_or("").to_string();
+        hist.add(&format!("impl:{}", class));
+        if distinct.insert(fnv(c.model.as_bytes())) {}
+        if !(class == "ret" || class.starts_with("err")) {
+            *aborting.entry(format!("{}.{}:{}", key_module(&c.module), c.name, class)).or_insert(0) += 1;
+        }
+        let _ = c.family;
+    }
+    let mut os_f = args.file("os_out.txt");
+    for ((label, src), o) in os.iter().zip(os_out.iter()) {
+        writeln!(os_f, "{}\t{}\t{}\t{}", label, o.result.split(' ').next().unwrap_or(""), src, o.detail).unwrap();
+        hist.add(&format!("os:{}", o.result.split(' ').next().unwrap_or("")));
+    }
+    let mut hist_f = args.file("hist_out.txt");
+    for (l, o) in hlines.iter().zip(hist_out.iter()) {
+        let progs: Vec<String> = l.split_whitespace().filter_map(|t| t.parse::<usize>().ok()).filter(|i| *i < pool.len() && !l.starts_with('S')).map(|i| pool[i].0.to_string()).collect();
+        writeln!(hist_f, "{}\t{}\t{}", o.result, l, progs.join(" ;; ")).unwrap();
+        hist.add(if o.result.starts_with("ok") { "history:ok" } else { "history:FAIL" });
+        hist.add(&format!("history-len:{}", l.split_whitespace().count()));
+    }
+    model_in.flush().unwrap();
+    impl_out.flush().unwrap();
+    cases_f.flush().unwrap();
+    detail_f.flush().unwrap();
+    os_f.flush().unwrap();
+    hist_f.flush().unwrap();
+    gvh::out::write_json(
+        &args.out.join("stats.json"),
+        &serde_json::json!({
+            "evaluations": cases.len() + os.len() + hlines.iter().map(|l| l.split_whitespace().count()).sum::<usize>(),
+            "prim_cases": cases.len(),
+            "signatures": sig_lines.len(),
+            "os_cases": os.len(),
+            "histories": hlines.len(),
+            "distinct_nontrivial": distinct.len(),
+            "rule": "one case = (primitive, argument tuple) evaluated as a Gluon program in an isolated child; distinct by (primitive, arguments); every case applies a primitive to at least one argument (none trivial); histories and OS-module probes are counted in evaluations only",
+            "primitives_in_table": table.entries.len(),
+            "primitives_driven": cases.iter().map(|c| format!("{}.{}", c.module, c.name)).collect::<HashSet<_>>().len(),
+            "uncovered": uncovered,
+            "aborting": aborting,
+            "hist": hist.to_json(),
+        }),
+    );
+}
+
+fn replay(path: &str) {
+    let v: serde_json::Value = serde_json::from_str(&std::fs::read_to_string(path).expect("replay file")).expect("json");
+    let src = v["case"]["source"].as_str().expect("case.source").to_string();
+    let prelude = v["case"]["prelude"].as_bool().unwrap_or(false);
+    let dir = std::path::PathBuf::from("/verif/.cache/run/c06-replay");
+    std::fs::create_dir_all(&dir).unwrap();
+    let job = dir.join("jobs.txt");
+    std::fs::write(&job, format!("{}\n", src.replace('\n', " "))).unwrap();
+    let o = run_isolated(&job, 1, prelude, 1, "child");
+    println!("source: {}", src);
+    println!("impl: {}  {}", o[0].result, o[0].detail);
+    println!("expected(model): {}", v["expected"].as_str().unwrap_or("?"));
 }
